@@ -97,12 +97,13 @@ impl AccessLog {
 
     #[cfg(feature = "metrics")]
     pub async fn reopen(&self) -> Result<(), Error> {
+        // the request must be answered also when the log task is stuck behind a sink that takes no data and
+        // its queue is full: report that instead of waiting for room
         self.tx
             .as_ref()
             .unwrap()
-            .send(None)
-            .await
-            .context("enqueue log")
+            .try_send(None)
+            .context("access log is busy, rotation not queued")
     }
 
     pub async fn write(&self, e: Arc<ContextProps>) -> Result<(), Error> {
@@ -193,7 +194,9 @@ async fn signal_watch(tx: Sender<Option<Arc<ContextProps>>>) {
     loop {
         let e = stream.recv().await;
         if e.is_some() {
-            tx.send(None).await.unwrap();
+            if let Err(e) = tx.try_send(None) {
+                error!("access log is busy, rotation not queued: {}", e);
+            }
         } else {
             error!("signal watch ends");
             return;
